@@ -25,21 +25,28 @@ class FixedPin:
     def get_new_pin(self):
         return self.new_pin
 
+    commit_fails = False
+
     def commit_change(self):
         self.events.append("commit")
+        if self.commit_fails:
+            from ledger.pin import PinError
+            raise PinError("Error commiting: injected")
 
     def abort_change(self):
         self.events.append("abort")
 
 
-def make_stack(device=None, v1=False, platform="ledger", pin=None, connect=True):
+def make_stack(device=None, v1=False, platform="ledger", pin=None, connect=True, bytes_model=False, traced=(), native_validators=False):
     """Returns (protocol, dongle, world).  All classes are the repository's own."""
     import ledger.hsm2dongle as h
     from ledger.protocol import HSM2ProtocolLedger
     from ledger.protocol_v1 import HSM1ProtocolLedger
+    from comm.platform import Platform
+    Platform.set({"ledger": Platform.LEDGER, "tcp": Platform.X86, "sgx": Platform.SGX}[platform])   # as the manager_*.py entry points do
     device = device or SimDevice()
     world = World(device)
-    world.install()
+    world.install(bytes_model=bytes_model, traced=traced, native_validators=native_validators)
     if platform == "ledger":
         dongle = passthrough(h.HSM2Dongle)(False)
     elif platform == "tcp":
